@@ -559,10 +559,16 @@ def evaluate__value_comparison_operators(self: XPathToken, context: ta.ContextTy
     elif all(isinstance(x, (str, UntypedAtomic, QName)) for x in operands):
         pass
     elif all(isinstance(x, (float, Decimal, int)) for x in operands):
-        if isinstance(operands[0], float):
-            operands[1] = get_double(cast(ta.NumericType, operands[1]), self.parser.xsd_version)
-        else:
-            operands[0] = get_double(cast(ta.NumericType, operands[0]), self.parser.xsd_version)
+        try:
+            if isinstance(operands[0], float):
+                operands[1] = get_double(cast(ta.NumericType, operands[1]),
+                                         self.parser.xsd_version)
+            else:
+                operands[0] = get_double(cast(ta.NumericType, operands[0]),
+                                         self.parser.xsd_version)
+        except OverflowError as err:
+            # an integer operand too large to be converted to xs:double
+            raise self.error('FOAR0002', err) from None
     elif all(isinstance(x, Duration) for x in operands) and self.symbol in ('eq', 'ne'):
         pass
     elif (issubclass(cls0, cls1) or issubclass(cls1, cls0)) and not issubclass(cls0, Duration):
